@@ -75,7 +75,7 @@ func genBucketScenario(p *prng.R, env instrEnv) bucketScenario {
 }
 
 func runBucketCases(t *testing.T, r *rep.Reporter, env instrEnv) {
-	n := r.N(120, 4000)
+	n := r.N(120, 12000)
 	for i := 0; i < n; i++ {
 		idx := baseBucket + i
 		r.Run(idx, fmt.Sprintf("bucketset-%d", i), func(c *rep.Case) {
